@@ -42,6 +42,9 @@ func (e seqEnv) rpc() *Rpc {
 			r.Header.Headers = []*goatorepo.KeyValue{{Key: "k", Value: "v"}}
 		case 2:
 			r.Header.Headers = []*goatorepo.KeyValue{{Key: "k-bin", Value: badBinValue()}}
+		case 3:
+			// the same under a key that is not all lower-case (a foreign peer may send any case)
+			r.Header.Headers = []*goatorepo.KeyValue{{Key: "K-Bin", Value: "!!"}}
 		}
 	}
 	if e.Body {
@@ -60,7 +63,7 @@ func (e seqEnv) rpc() *Rpc {
 }
 
 func (e seqEnv) wellFormedFor(methodKind string) bool {
-	if !e.Hdr || e.Dst != "srv" || e.Meta == 2 {
+	if !e.Hdr || e.Dst != "srv" || e.Meta >= 2 {
 		return false
 	}
 	m := strings.TrimPrefix(e.Method, "/")
@@ -81,6 +84,8 @@ func c12Alphabet() []seqEnv {
 		{Hdr: true, Method: u, Dst: "srv", Body: true, Meta: 1},                 // valid unary with metadata
 		{Hdr: true, Method: u, Dst: "srv"},                                      // unary without body
 		{Hdr: true, Method: u, Dst: "srv", Body: true, Meta: 2},                 // unary, undecodable metadata
+		{Hdr: true, Method: u, Dst: "srv", Body: true, Meta: 3},                 // unary, undecodable metadata under "K-Bin"
+		{Hdr: true, Method: s, Dst: "srv", Meta: 3},                             // stream open, undecodable metadata under "K-Bin"
 		{Hdr: true, Method: u, Dst: "other", Body: true},                        // wrong destination
 		{Hdr: true, Method: "verif.Echo/Unary", Dst: "srv", Body: true},         // no leading slash
 		{Hdr: false, Body: true},                                                // no header
